@@ -107,7 +107,8 @@ func buildPlainValueFromElement(elem r.Element) any {
 	case *value.Number:
 		return vv.GetValue()
 	case *value.Array:
-		var resultList []interface{}
+		// an empty list is [] (a nil slice would be encoded as null)
+		resultList := []interface{}{}
 		for _, vi := range vv.GetValue() {
 			resultList = append(resultList, buildPlainValueFromElement(vi))
 		}
